@@ -14,7 +14,8 @@ PATHS = [0]
 TWIN = [False]
 ROOT = os.environ.get('VERIF_C15_ROOT', '')
 SRC = 'import mod\nvalue = mod.thing\nmod.thing\nundefined_name\n'
-KINDS = ('configure', 'assist', 'location', 'lint', 'eval', 'unknown', 'arity', 'eval_raises', 'unserialisable', 'bad_position')
+KINDS = ('configure', 'assist', 'location', 'lint', 'eval', 'unknown', 'arity', 'eval_raises', 'unserialisable', 'bad_position',
+         'surrogate_result', 'cyclic_result', 'huge_int_result')
 
 
 def materialise(path):
@@ -114,6 +115,12 @@ def remote(env, kind, fn):
             return 'ok', env.eval('return object()')
         if kind == 'bad_position':
             return 'ok', env.assist(SRC, 5, fn)
+        if kind == 'surrogate_result':
+            return 'ok', env.eval('return chr(0xd800)')
+        if kind == 'cyclic_result':
+            return 'ok', env.eval('x = []\nx.append(x)\nreturn x')
+        if kind == 'huge_int_result':
+            return 'ok', env.eval('return 2 ** 70')
     except Exception as e:
         return 'exc', str(e)
     raise ValueError(kind)
@@ -144,7 +151,7 @@ class Local(object):
             return 'ok', 42
         if kind == 'eval_raises':
             return 'exc', 'boom'
-        if kind == 'unserialisable':
+        if kind in ('unserialisable', 'surrogate_result', 'cyclic_result', 'huge_int_result'):
             return 'exc', 'Serialize error'
         return 'exc', None          # unknown method, wrong arity, bad position: some exception with the server's message
 
@@ -186,12 +193,12 @@ def _c(v, lo, hi):
 def check(n: int, a: int, b: int, c: int) -> bool:
     """
     pre: 1 <= n <= 3
-    pre: 0 <= a <= 9 and 0 <= b <= 9 and 0 <= c <= 9
+    pre: 0 <= a <= 12 and 0 <= b <= 12 and 0 <= c <= 12
     post: _
     """
     PATHS[0] += 1
     from crosshair.tracers import NoTracing
-    n, a, b, c = _c(n, 1, 3), _c(a, 0, 9), _c(b, 0, 9), _c(c, 0, 9)
+    n, a, b, c = _c(n, 1, 3), _c(a, 0, 12), _c(b, 0, 12), _c(c, 0, 12)
     with NoTracing():
         if TWIN[0]:
             return False
